@@ -187,12 +187,17 @@ inductive WOutcome where
   | panic
   deriving DecidableEq, Repr
 
+/-- the class assertion of `writeConsensusSnapshot`: a sole mint input, or `Outputs[0]` of a
+    consensus output type (`none` = no output: index panic) -/
+def shapeOk (c : Codes) (tx : Tx) : Bool :=
+  tx.mintSole || (match tx.out0 with | some o => isConsensusOutput c o | none => false)
+
 /-- `writeConsensusSnapshot(txn, snap, tx, hack)` inside `WriteConsensusSnapshot`; the
     assertions are `panic`. The snapshot body itself is written elsewhere (`WriteSnapshot`). -/
 def writeConsensus (c : Codes) (st : Store) (snap : Snap) (tx : Tx) (hack : Option Snap) : WOutcome :=
   if snap.txs.length != 1 then .panic
   else if snap.txs.head? != some tx.hash then .panic
-  else if !(tx.mintSole || (match tx.out0 with | some o => isConsensusOutput c o | none => false)) then .panic
+  else if !(shapeOk c tx) then .panic
   else
     match readLast st with
     | .panic => .panic
